@@ -25,6 +25,13 @@ theorem mem_argNames (sn : Bool) (vars : List Var) (p : Name) :
     p ∈ argNames sn vars ↔ p = selfName ∨ p ∈ docParams sn vars := by
   simp [argNames, mem_params]
 
+theorem contains_false {l : List Name} {x : Name} (h : l.contains x = false) : x ∉ l := by
+  intro hm
+  have : l.contains x = true := by simpa using hm
+  rw [h] at this; exact absurd this (by simp)
+
+theorem contains_true {l : List Name} {x : Name} (h : x ∈ l) : l.contains x = true := by simpa using h
+
 theorem rename_cases (args : List Name) (h : Name) :
     (h ∈ args ∧ rename args h = '_' :: h) ∨ (h ∉ args ∧ rename args h = h) := by
   unfold rename
@@ -115,11 +122,66 @@ theorem readAll_mem (env : Env) (p : Name) (v : Val) (hv : env.lookup p = some v
           simp [this]
         · exact List.mem_cons_of_mem _ (readAll_mem env p v hv ps vs h2 hp')
 
-/-- the body sends what the property demands when the `query` local is no parameter -/
-theorem runBody_ok (sub : Bool) (L : Locals) (wires ps : List Name)
+theorem lookup_cons_ne (k n : Name) (v : Val) (env : Env) (h : n ≠ k) :
+    (((k, v) :: env : Env)).lookup n = env.lookup n := by
+  have : (n == k) = false := by simpa using h
+  simp [List.lookup, this]
+
+theorem lookup_bindArgs_none (n : Name) : ∀ (ps : List Name) (k : Nat), n ∉ ps → (bindArgs k ps).lookup n = none
+  | [], _, _ => rfl
+  | p :: ps, k, h => by
+    have h1 : n ≠ p := fun e => h (e ▸ List.mem_cons_self)
+    have h2 : n ∉ ps := fun hm => h (List.mem_cons_of_mem _ hm)
+    rw [bindArgs, lookup_cons_ne _ _ _ _ h1]
+    exact lookup_bindArgs_none n ps (k + 1) h2
+
+theorem lookup_bindArgs_some (n : Name) : ∀ (ps : List Name) (k : Nat), n ∈ ps → ∃ v, (bindArgs k ps).lookup n = some v
+  | [], _, h => by simp at h
+  | p :: ps, k, h => by
+    by_cases e : n = p
+    · subst e; exact ⟨.arg k, by simp [bindArgs, List.lookup]⟩
+    · have hm : n ∈ ps := by
+        rcases List.mem_cons.mp h with h | h
+        · exact absurd h e
+        · exact h
+      obtain ⟨v, hv⟩ := lookup_bindArgs_some n ps (k + 1) hm
+      exact ⟨v, by rw [bindArgs, lookup_cons_ne _ _ _ _ e]; exact hv⟩
+
+/-- the environment a call starts with -/
+def env0 (ps : List Name) : Env := (selfName, .selfV) :: (bindArgs 0 ps ++ [(kwargsName, .kwargsV)])
+
+theorem env0_lookup_none (n : Name) (ps : List Name) (h1 : n ≠ selfName) (h2 : n ≠ kwargsName) (h3 : n ∉ ps) :
+    (env0 ps).lookup n = none := by
+  rw [env0, lookup_cons_ne _ _ _ _ h1, lookup_append_none _ _ _ (lookup_bindArgs_none n ps 0 h3)]
+  have : (n == kwargsName) = false := by simpa using h2
+  simp [List.lookup, this]
+
+theorem lookup_append_some (pre rest : Env) (n : Name) (v : Val) (h : pre.lookup n = some v) :
+    (pre ++ rest).lookup n = some v := by
+  induction pre with
+  | nil => simp [List.lookup] at h
+  | cons kv pre ih =>
+    obtain ⟨k, w⟩ := kv
+    by_cases hk : n == k
+    · simp only [List.lookup, hk] at h
+      simp [List.lookup, hk, h]
+    · have hk' : (n == k) = false := by simpa using hk
+      simp only [List.lookup, hk'] at h
+      simp [List.lookup, hk', ih h]
+
+theorem env0_lookup_some (n : Name) (ps : List Name) (h1 : n ≠ selfName) (h3 : n ∈ ps) :
+    ∃ v, (env0 ps).lookup n = some v := by
+  obtain ⟨v, hv⟩ := lookup_bindArgs_some n ps 0 h3
+  exact ⟨v, by rw [env0, lookup_cons_ne _ _ _ _ h1]; exact lookup_append_some _ _ _ _ hv⟩
+
+/-- the body sends what the property demands when the `query` local is no parameter and no
+    parameter shadows `gql` or the result class -/
+theorem runBody_ok (sub : Bool) (L : Locals) (ret : Name) (wires ps : List Name)
     (hq : L.q ∉ ps) (hqs : L.q ≠ selfName) (hself : selfName ∉ ps) (hnd : ps.Nodup)
-    (hvq : L.v ≠ L.q) :
-    runBody sub L wires ps = .ok
+    (hvq : L.v ≠ L.q) (hg : gqlName ∉ ps)
+    (hr : ret ∉ ps) (hr1 : ret ≠ selfName) (hr2 : ret ≠ kwargsName)
+    (hrq : ret ≠ L.q) (hrv : ret ≠ L.v) (hrr : ret ≠ L.r) (hrd : ret ≠ L.d) :
+    runBody sub L ret wires ps = .ok
       ⟨.text, .dict wires (argVals 0 ps.length),
        .parsed (.data (.resp .text (.dict wires (argVals 0 ps.length))))⟩ := by
   have hpre : ∀ p ∈ ps, ([(L.q, Val.text), (selfName, Val.selfV)] : Env).lookup p = none := by
@@ -129,19 +191,44 @@ theorem runBody_ok (sub : Bool) (L : Locals) (wires ps : List Name)
     have h2 : (p == selfName) = false := by
       simpa using (fun e : p = selfName => hself (e ▸ hp))
     simp [List.lookup, h1, h2]
-  have hr := readAll_bindArgs [(kwargsName, Val.kwargsV)] ps [(L.q, Val.text), (selfName, Val.selfV)] 0 hpre hnd
+  have hr0 := readAll_bindArgs [(kwargsName, Val.kwargsV)] ps [(L.q, Val.text), (selfName, Val.selfV)] 0 hpre hnd
   have hr' : readAll ((L.q, Val.text) :: (selfName, Val.selfV) :: (bindArgs 0 ps ++ [(kwargsName, Val.kwargsV)])) ps
-      = .ok (argVals 0 ps.length) := by simpa using hr
+      = .ok (argVals 0 ps.length) := by simpa using hr0
   have hq' : (L.q == L.v) = false := by simpa using (fun e : L.q = L.v => hvq e.symm)
+  have tail_none : ∀ n : Name, n ≠ kwargsName → n ∉ ps →
+      (bindArgs 0 ps ++ [(kwargsName, Val.kwargsV)] : Env).lookup n = none := by
+    intro n h2 h3
+    rw [lookup_append_none _ _ _ (lookup_bindArgs_none n ps 0 h3)]
+    have : (n == kwargsName) = false := by simpa using h2
+    simp [List.lookup, this]
+  have hgql := tail_none gqlName (by decide) hg
+  have hgs : (gqlName == selfName) = false := by decide
+  have hret0 := tail_none ret hr2 hr
+  have b1 : (ret == selfName) = false := by simpa using hr1
+  have b2 : (ret == L.q) = false := by simpa using hrq
+  have b3 : (ret == L.v) = false := by simpa using hrv
+  have b4 : (ret == L.r) = false := by simpa using hrr
+  have b5 : (ret == L.d) = false := by simpa using hrd
   cases sub <;>
-    simp [runBody, hr', lookupVal, List.lookup, hq']
+    simp [runBody, hgql, hgs, hr', lookupVal, List.lookup, hq', validateWith, hret0, b1, b2, b3, b4, b5]
+
+/-- a parameter called `gql` makes every call fail before anything is sent -/
+theorem runBody_gql (sub : Bool) (L : Locals) (ret : Name) (wires ps : List Name) (hg : gqlName ∈ ps) :
+    runBody sub L ret wires ps = .error (.notCallable gqlName) := by
+  obtain ⟨v, hv⟩ := env0_lookup_some gqlName ps (by decide) hg
+  simp only [env0] at hv
+  simp [runBody, hv]
 
 /-- whatever happens, the dict handed to `execute` holds what reading the parameters gave -/
-theorem runBody_variables (sub : Bool) (L : Locals) (wires ps : List Name) (s : Sent)
-    (h : runBody sub L wires ps = .ok s) :
+theorem runBody_variables (sub : Bool) (L : Locals) (ret : Name) (wires ps : List Name) (s : Sent)
+    (h : runBody sub L ret wires ps = .ok s) :
     ∃ vals, readAll ((L.q, Val.text) :: (selfName, Val.selfV) :: (bindArgs 0 ps ++ [(kwargsName, Val.kwargsV)])) ps = .ok vals ∧
       s.variables = .dict wires vals := by
   unfold runBody at h
+  cases hg : ((selfName, Val.selfV) :: (bindArgs 0 ps ++ [(kwargsName, Val.kwargsV)]) : Env).lookup gqlName with
+  | some x => simp [hg] at h
+  | none =>
+  simp only [hg] at h
   cases hr : readAll ((L.q, Val.text) :: (selfName, Val.selfV) :: (bindArgs 0 ps ++ [(kwargsName, Val.kwargsV)])) ps with
   | error e => simp [hr] at h
   | ok vals =>
@@ -152,10 +239,46 @@ theorem runBody_variables (sub : Bool) (L : Locals) (wires ps : List Name) (s : 
     | ok q =>
       simp only [hq] at h
       cases sub
-      · simp only [lookupVal_head, Bool.false_eq_true, if_false, Except.ok.injEq] at h
-        rw [← h]
-      · simp only [lookupVal_head, if_true, Except.ok.injEq] at h
-        rw [← h]
+      · simp only [lookupVal_head, Bool.false_eq_true, if_false] at h
+        split at h
+        · exact absurd h (by simp)
+        · simp only [Except.ok.injEq] at h
+          rw [← h]
+      · simp only [lookupVal_head, if_true] at h
+        split at h
+        · exact absurd h (by simp)
+        · simp only [Except.ok.injEq] at h
+          rw [← h]
+
+/-- a call that succeeds did not find the result class shadowed by a parameter -/
+theorem runBody_ret (sub : Bool) (L : Locals) (ret : Name) (wires ps : List Name) (s : Sent)
+    (h : runBody sub L ret wires ps = .ok s) (hr1 : ret ≠ selfName)
+    (hrq : ret ≠ L.q) (hrv : ret ≠ L.v) (hrr : ret ≠ L.r) (hrd : ret ≠ L.d) : ret ∉ ps := by
+  intro hm
+  obtain ⟨x, hx⟩ := env0_lookup_some ret ps hr1 hm
+  simp only [env0] at hx
+  unfold runBody at h
+  cases hg : ((selfName, Val.selfV) :: (bindArgs 0 ps ++ [(kwargsName, Val.kwargsV)]) : Env).lookup gqlName with
+  | some x => simp [hg] at h
+  | none =>
+  simp only [hg] at h
+  cases hr : readAll ((L.q, Val.text) :: (selfName, Val.selfV) :: (bindArgs 0 ps ++ [(kwargsName, Val.kwargsV)])) ps with
+  | error e => simp [hr] at h
+  | ok vals =>
+    simp only [hr, lookupVal_head] at h
+    cases hq : lookupVal ((L.v, Val.dict wires vals) :: (L.q, Val.text) :: (selfName, Val.selfV) :: (bindArgs 0 ps ++ [(kwargsName, Val.kwargsV)])) L.q with
+    | error e => simp [hq] at h
+    | ok q =>
+      simp only [hq] at h
+      cases sub
+      · simp only [lookupVal_head, Bool.false_eq_true, if_false, validateWith,
+          lookup_cons_ne _ _ _ _ hrd, lookup_cons_ne _ _ _ _ hrr, lookup_cons_ne _ _ _ _ hrv,
+          lookup_cons_ne _ _ _ _ hrq, hx] at h
+        exact absurd h (by simp)
+      · simp only [lookupVal_head, if_true, validateWith,
+          lookup_cons_ne _ _ _ _ hrd, lookup_cons_ne _ _ _ _ hrv,
+          lookup_cons_ne _ _ _ _ hrq, hx] at h
+        exact absurd h (by simp)
 
 /-! ## B. class scope -/
 
